@@ -51,6 +51,12 @@ def m_int(it, args, kw):
 def parse_int(it, s, base=10):
     """int(str) for structured strings: FmtInt -> its term; otherwise literal parse."""
     parts = s.parts
+    if len(parts) == 1 and isinstance(parts[0], FmtInt):
+        _assume(it, "int(str(n)) == n (decimal rendering is inverse to parsing)")
+        return parts[0].term
+    if len(parts) == 1 and isinstance(parts[0], Atom) and "intlit" in parts[0].tags:
+        _assume(it, "int() parses every string of the xsd:integer lexical space")
+        return parts[0].intval
     zs = s.z3()
     if zs is not None and not s.is_literal():
         from . import zstr
@@ -61,13 +67,8 @@ def parse_int(it, s, base=10):
         v = it.path.fresh("parsed_int", z3.IntSort())
         if base == 10:
             it.path.assume(z3.Implies(z3.InRe(zs, z3.Plus(z3.Range("0", "9"))), v == z3.StrToInt(zs)))
+        it.path.assume(z3.Implies(z3.Not(z3.Contains(zs, z3.StringVal("-"))), v >= 0))
         return v
-    if len(parts) == 1 and isinstance(parts[0], FmtInt):
-        _assume(it, "int(str(n)) == n (decimal rendering is inverse to parsing)")
-        return parts[0].term
-    if len(parts) == 1 and isinstance(parts[0], Atom) and "intlit" in parts[0].tags:
-        _assume(it, "int() parses every string of the xsd:integer lexical space")
-        return parts[0].intval
     if s.is_literal():
         return it.native(int, [s.literal()], {})
     if any(isinstance(p, FmtReal) for p in parts) or any(isinstance(p, str) and p.strip() and not p.strip().lstrip("+-").isdigit() for p in parts):
@@ -194,6 +195,8 @@ def _seq_minmax(it, seq, is_min):
 def m_min(it, args, kw):
     if kw:
         raise Unsupported("min with key/default")
+    if len(args) == 1 and hasattr(args[0], "minmax"):
+        return args[0].minmax(it, True)
     if len(args) == 1:
         if isinstance(args[0], SSeq):
             ln = z3.simplify(to_int(args[0].length))
@@ -207,6 +210,8 @@ def m_min(it, args, kw):
 def m_max(it, args, kw):
     if kw:
         raise Unsupported("max with key/default")
+    if len(args) == 1 and hasattr(args[0], "minmax"):
+        return args[0].minmax(it, False)
     if len(args) == 1:
         if isinstance(args[0], SSeq):
             ln = z3.simplify(to_int(args[0].length))
@@ -326,6 +331,10 @@ def m_range(it, args, kw):
         lo, hi = z3.IntVal(0), to_int(args[0])
     elif len(args) == 2:
         lo, hi = to_int(args[0]), to_int(args[1])
+    elif len(args) == 3 and args[2] == -1:
+        lo, hi = to_int(args[0]), to_int(args[1])
+        n = z3.If(lo > hi, lo - hi, z3.IntVal(0))
+        return SSeq(n, lambda i, lo=lo: lo - to_int(i), name="range(-1)")
     else:
         raise Unsupported("symbolic range with step")
     n = z3.If(hi > lo, hi - lo, z3.IntVal(0))
@@ -401,6 +410,19 @@ def m_frozenset(it, args, kw):
 
 @model(builtins.sorted)
 def m_sorted(it, args, kw):
+    src = args[0]
+    if type(src).__name__ == "SSeqGen":
+        src = src.filtered
+    if isinstance(src, SSeq) and not z3.is_int_value(z3.simplify(to_int(src.length))):
+        from . import seqs
+
+        src = seqs.SFiltered(to_int(src.length), lambda i: z3.BoolVal(True), src.getter, name=src.name)
+    if type(src).__name__ == "SFiltered":
+        if kw:
+            raise Unsupported("sorted(key=...) over a symbolic sequence")
+        from . import seqs
+
+        return seqs.SSorted(it, src).as_seq()
     items = it.iterate(args[0])
     if deep_concrete(items) and deep_concrete(kw):
         return it.native(sorted, [items], kw)
